@@ -21,7 +21,9 @@ func Register() {
 			"record.identical_in_one_tx", "record.identical_in_one_block", "record.identical_in_another_block",
 			"record.several_creations_in_one_tx", "record.creation_next_to_other_messages",
 			"record.tx_with_creations_rolled_back", "record.creation_after_a_rolled_back_one", "record.creation_out_of_gas",
-			"fault.restart", "fault.crash_before_commit"},
+			"fault.restart", "fault.crash_before_commit",
+			"record.gov_proposal_submitted", "record.gov_proposal_passed", "record.gov_records_created",
+			"record.gov_identical_proposals_different_blocks"},
 		Rule: "a run is non-trivial when more than three returned ids were checked for newness, at least one of them for a record byte-identical to an earlier one of the same creator (same tx, same block or another block), and more than ten read-backs of stored records were compared with what was submitted; distinct = different fingerprint of the executed (operation kind, outcome class) sequence",
 	})
 }
